@@ -157,6 +157,19 @@ CLAIMED = {
         ref="DESIGN.md §6 C12",
         technique="Lean 4 proof (permutation invariance of sorting by an identifying key) + multi-interpreter differential runs",
     ),
+    "C11": dict(
+        text="Proved in Lean for connection targets of any nesting: import (slice.top inclusive -> Python stop, concatenation parts reversed) "
+        "followed by export is the identity on well-formed targets (target_roundtrip); the table parts of the round trip — prefix maps, "
+        "ideal-primitive name maps, pulse-source parameter renaming: importer = inverse of exporter on every entry — are decide-theorems "
+        "over tables regenerated from exporter and importer on every run. Everything else (ports, signals, instances, parameter values, "
+        "external modules with port order and spice type, literals, and that re-elaboration of imported modules changes nothing) is "
+        "decided by correspondence: to_proto(from_proto(P)) == P as protobuf equality for packages of generated designs (3 styles), the "
+        "repository's examples (all top-level modules re-exported), built-in generators and the primitive / external-module parameter space.",
+        note="Only the connection-target and table clauses are proved; the module-level import/export mirror is covered by protobuf equality on "
+        "every explored package.",
+        ref="DESIGN.md §6 C11",
+        technique="Lean 4 proof (target round trip by mutual structural induction, decide over regenerated tables) + protobuf-equality correspondence",
+    ),
 }
 NOT_YET = {}
 
